@@ -6,6 +6,7 @@ import (
 	"encoding/json"
 	"errors"
 	"fmt"
+	"hash/fnv"
 	"io"
 	"net/http"
 	"os"
@@ -100,7 +101,7 @@ var faultPart = pbt.Part[faultCase]{Name: "fault-isolation-random", Journal: tru
 // with a null required field (finding C07-requires-fetch-sent-with-null-required-field), so
 // the other parts keep @requires out; a transport failure makes it skip the dependants,
 // and that skip has to carry through every later hop of the chain.
-var requiresPart = pbt.Part[faultCase]{Name: "fault-isolation-requires-transport", Journal: true, Quick: 3000, Thorough: 60000, Check: checkFault,
+var requiresPart = pbt.Part[faultCase]{Name: "fault-isolation-requires-transport", Journal: true, Quick: 5000, Thorough: 80000, Check: checkFault,
 	Gen: func(t *rapid.T) faultCase {
 		// with the validation switches on, the second hop of a @requires chain is still sent with
 		// a null required field (its own input was never fetched): same family as the recorded
@@ -161,8 +162,10 @@ func entityCount(r *sim.Request) int {
 
 func isEntityRequest(r *sim.Request) bool { return strings.Contains(r.Query, "_entities(") }
 
-// faultSchema is the supergraph of the case being checked (one case at a time per process).
+// faultSchema is the supergraph of the case being checked (one case at a time per process),
+// faultRequired the "Type.field" coordinates some @requires selection names.
 var faultSchema *ast.Schema
+var faultRequired map[string]bool
 
 func faultNullable(typ, field string) bool {
 	if faultSchema == nil {
@@ -209,8 +212,17 @@ func respond(kind string, r *sim.Request, answer []byte) *sim.Response {
 		ents, _ := d["_entities"].([]any)
 		// the first entity with a non-null field; else the first field of the first entity
 		// (a resolver error on a field that would have been null anyway)
+		// which entity fails varies with the request (deterministically)
+		start := 0
+		if len(ents) > 0 {
+			h := fnv.New32a()
+			h.Write([]byte(r.Body))
+			start = int(h.Sum32() % uint32(len(ents)))
+		}
 		for pass := 0; pass < 2; pass++ {
-			for i, e := range ents {
+			for j := range ents {
+				i := (start + j) % len(ents)
+				e := ents[i]
 				em, _ := e.(map[string]any)
 				var keys []string
 				tn, _ := em["__typename"].(string)
@@ -224,6 +236,14 @@ func respond(kind string, r *sim.Request, answer []byte) *sim.Response {
 				sort.Strings(keys)
 				if len(keys) == 0 {
 					continue
+				}
+				// a field some @requires needs comes first: its failure is what the validation
+				// switches are about
+				for _, k := range keys {
+					if faultRequired[tn+"."+k] {
+						keys[0] = k
+						break
+					}
 				}
 				em[keys[0]] = nil
 				m["errors"] = []any{map[string]any{"message": "injected: resolver failed", "path": []any{"_entities", i, keys[0]}}}
@@ -486,6 +506,13 @@ func checkFault(c faultCase, o *pbt.Rec) pbt.Verdict {
 	}
 	defer gw.Close()
 	faultSchema = gw.World.Super
+	faultRequired = map[string]bool{}
+	for coord, sel := range c.Layout.Requires {
+		typ := strings.SplitN(coord, ".", 2)[0]
+		for _, f := range strings.Fields(sel) {
+			faultRequired[typ+"."+f] = true
+		}
+	}
 	refRes, err := gw.World.Reference(c.Op)
 	if err != nil {
 		o.Discard("generator-vs-gqlparser")
